@@ -9,7 +9,7 @@ while read -r prop fams; do
   done
 done <<'L'
 C01 lifecycle
-C02 lifecycle batch config
+C02 lifecycle batch config flow
 C03 flow
 C04 lifecycle flow batch
 C05 lifecycle flow
